@@ -3,6 +3,7 @@ package rules
 import (
 	"errors"
 	"fmt"
+	"math"
 	"strconv"
 
 	"github.com/vektah/gqlparser/v2/ast"
@@ -55,10 +56,18 @@ func ruleFuncValuesOfCorrectType(observers *Events, addError AddErrFunc, disable
 		case ast.IntValue:
 			if !value.Definition.OneOf("Int", "Float", "ID") {
 				unexpectedTypeMessage(addError, value)
+			} else if value.Definition.OneOf("Int") {
+				// Int is a signed 32-bit integer
+				if _, err := strconv.ParseInt(value.Raw, 10, 32); err != nil {
+					unexpectedTypeMessage(addError, value)
+				}
 			}
 
 		case ast.FloatValue:
 			if !value.Definition.OneOf("Float") {
+				unexpectedTypeMessage(addError, value)
+			} else if f, err := strconv.ParseFloat(value.Raw, 64); err != nil || math.IsInf(f, 0) {
+				// Float is a finite double
 				unexpectedTypeMessage(addError, value)
 			}
 
@@ -118,6 +127,11 @@ func ruleFuncValuesOfCorrectType(observers *Events, addError AddErrFunc, disable
 			}
 
 		case ast.ObjectValue:
+			if value.Definition.Kind != ast.InputObject {
+				// an object literal where a scalar or an enum is expected
+				unexpectedTypeMessage(addError, value)
+				return
+			}
 
 			for _, field := range value.Definition.Fields {
 				if field.Type.NonNull {
